@@ -31,7 +31,8 @@ LEVEL_TEXT = ("Lean 4 theorems, for all networks, initial states / functions, sa
               "independently by the harness.")
 LEVEL_NOTE = ("Trusted: Lean kernel + {propext, Classical.choice, Quot.sound}; the network is an oracle table (whole "
               "outputs; the model slices, aligns rows and aggregates); the tie of the hand-written model to the code is "
-              "differential; SPINN branches and parameter batches (C12) are not covered here.")
+              "differential; a parameter batch is covered for the observation term (observed rows win over generated rows of "
+              "the same key) and the initial-condition term; SPINN branches are not covered here.")
 THEOREMS = [
     "Jinns.LossTerms.icODE_single",
     "Jinns.LossTerms.icPDE_closed_form",
@@ -303,6 +304,8 @@ def shrink_candidates(case):
             c = dict(case)
             c[k] = None
             yield c
+    if case.get("pbatch") and not case.get("obs"):
+        return  # (a shrink step dropped the observation part: nothing smaller to try with a parameter batch)
     if case.get("pbatch"):
         # the parameter batch, the inside batch and the observation batch keep equal sizes
         n = len(case["obs"]["ins"])
